@@ -1,12 +1,15 @@
 (* Proofs/C12Proofs.v — density, natural density, isotope substitution (rational parts, over Q,
    axiom-free).  The volume formulas (over R) are in Proofs/C12Volume.v. *)
-From Coq Require Import ZArith QArith Qabs String List Bool Lia Setoid Permutation.
+From Coq Require Import ZArith QArith Qabs String Ascii List Bool Lia Setoid Permutation.
 From PT Require Import Str Dec Py Loaders Formula FormulaAlg FormulaMachine AtomEnv C02Proofs C19Proofs
                        Pyparse TableEnv Mixture PyparseMix Density.
 Import ListNotations.
 Open Scope Q_scope.
 
 (* ================================================================ 1. natural density *)
+Lemma mul_div_cancel : forall d r, ~ d == 0 -> d * r / d == r.
+Proof. intros. field. assumption. Qed.
+
 Lemma natural_mass_ratio_structural : forall E f,
   natural_mass_ratio E f ==
   fweight (e_natmass E) (FGroup (f_struct f)) / fweight (e_mass E) (FGroup (f_struct f)).
@@ -21,7 +24,7 @@ Theorem natural_ratio_spec : forall E f d, f_density f = Some d -> ~ d == 0 ->
     nd / d == fweight (e_natmass E) (FGroup (f_struct f)) / fweight (e_mass E) (FGroup (f_struct f)).
 Proof.
   intros E f d Hd Hnz. unfold f_natural_density. rewrite Hd. eexists. split; [reflexivity|].
-  rewrite <- natural_mass_ratio_structural. field. exact Hnz.
+  rewrite <- natural_mass_ratio_structural. apply mul_div_cancel. exact Hnz.
 Qed.
 
 (* the same with the sums taken over the atoms dictionary, whose entries are the count-weighted
@@ -32,7 +35,7 @@ Theorem natural_ratio_atoms : forall E f d, f_density f = Some d -> ~ d == 0 ->
     /\ forall b, dget0 (f_atoms f) b == cnt_s b (f_struct f).
 Proof.
   intros E f d Hd Hnz. unfold f_natural_density. rewrite Hd. eexists. split; [reflexivity|]. split.
-  - unfold natural_mass_ratio. field. exact Hnz.
+  - apply mul_div_cancel. exact Hnz.
   - intro b. apply count_atoms_spec.
 Qed.
 
@@ -114,10 +117,10 @@ Proof. intros. repeat split. Qed.
 
 (* the tag text: '@' number, then 'n' selects natural, 'i' or nothing isotopic *)
 Theorem tag_parse : forall r c r2, p_number r = POk c r2 ->
-  p_density (String "@" r) =
+  p_density (String "@"%char r) =
     match skip_ws r2 with
-    | String "n" r3 => POk (DNat c) r3
-    | String "i" r3 => POk (DIso c) r3
+    | String "n"%char r3 => POk (DNat c) r3
+    | String "i"%char r3 => POk (DIso c) r3
     | _ => POk (DIso c) r2
     end.
 Proof. intros r c r2 H. unfold p_density, lit. cbn. rewrite H. reflexivity. Qed.
@@ -163,4 +166,486 @@ Theorem several_atoms_unknown : forall E st k name, length (count_atoms st) <> 1
 Proof.
   intros E st k name H. unfold new_formula, init_density. cbn [f_density].
   destruct (count_atoms st) as [|[a c] [|p r]]; try reflexivity. exfalso. apply H. reflexivity.
+Qed.
+
+(* ================================================================ 5. dict assignment and deletion *)
+Lemma atom_eqb_neq : forall a b, a <> b -> atom_eqb a b = false.
+Proof.
+  intros a b H. destruct (atom_eqb a b) eqn:E; [|reflexivity]. apply atom_eqb_eq in E. contradiction.
+Qed.
+
+Lemma dget_dict_set : forall d a v b,
+  dget (dict_set d a v) b = if atom_eqb b a then Some v else dget d b.
+Proof.
+  induction d as [|[c w] r IH]; intros a v b; simpl.
+  - reflexivity.
+  - destruct (atom_eqb a c) eqn:Eac.
+    + apply atom_eqb_eq in Eac. subst c. simpl. destruct (atom_eqb b a); reflexivity.
+    + simpl. destruct (atom_eqb b c) eqn:Ebc.
+      * apply atom_eqb_eq in Ebc. subst c. rewrite atom_eqb_sym, Eac. reflexivity.
+      * apply IH.
+Qed.
+
+Lemma dget0_dict_set : forall d a v b,
+  dget0 (dict_set d a v) b = if atom_eqb b a then v else dget0 d b.
+Proof. intros. unfold dget0. rewrite dget_dict_set. destruct (atom_eqb b a); reflexivity. Qed.
+
+Lemma dget_dict_del : forall d a b,
+  dget (dict_del d a) b = if atom_eqb b a then None else dget d b.
+Proof.
+  unfold dict_del. induction d as [|[c w] r IH]; intros a b; simpl.
+  - destruct (atom_eqb b a); reflexivity.
+  - destruct (atom_eqb a c) eqn:Eac; simpl.
+    + apply atom_eqb_eq in Eac. subst c. rewrite IH. destruct (atom_eqb b a); reflexivity.
+    + destruct (atom_eqb b c) eqn:Ebc.
+      * apply atom_eqb_eq in Ebc. subst c. rewrite atom_eqb_sym, Eac. reflexivity.
+      * apply IH.
+Qed.
+
+Lemma dget0_dict_del : forall d a b,
+  dget0 (dict_del d a) b = if atom_eqb b a then 0 else dget0 d b.
+Proof. intros. unfold dget0. rewrite dget_dict_del. destruct (atom_eqb b a); reflexivity. Qed.
+
+Lemma keys_dict_set_in : forall d a v x, In x (keys (dict_set d a v)) <-> x = a \/ In x (keys d).
+Proof.
+  induction d as [|[c w] r IH]; intros a v x; simpl.
+  - intuition.
+  - destruct (atom_eqb a c) eqn:E; simpl.
+    + apply atom_eqb_eq in E. subst c. intuition.
+    + rewrite IH. intuition.
+Qed.
+
+Lemma nodup_dict_set : forall d a v, NoDup (keys d) -> NoDup (keys (dict_set d a v)).
+Proof.
+  induction d as [|[c w] r IH]; intros a v H; simpl.
+  - constructor; [intros []|constructor].
+  - inversion H as [|? ? Hn Hr]; subst. destruct (atom_eqb a c) eqn:E; simpl.
+    + constructor; assumption.
+    + constructor; [|apply IH; exact Hr]. intro Hin. apply keys_dict_set_in in Hin.
+      destruct Hin as [Hin|Hin]; [|exact (Hn Hin)]. subst c. rewrite atom_eqb_refl in E. discriminate.
+Qed.
+
+Lemma nodup_dict_del : forall d a, NoDup (keys d) -> NoDup (keys (dict_del d a)).
+Proof.
+  unfold dict_del. induction d as [|[c w] r IH]; intros a H; simpl.
+  - constructor.
+  - inversion H as [|? ? Hn Hr]; subst. destruct (atom_eqb a c); simpl.
+    + apply IH. exact Hr.
+    + constructor; [|apply IH; exact Hr]. intro Hin. apply Hn. unfold keys in *.
+      apply in_map_iff in Hin. destruct Hin as [p [Hp Hin]]. apply filter_In in Hin.
+      apply in_map_iff. exists p. tauto.
+Qed.
+
+(* sums over the dict *)
+Lemma dweight_dict_set : forall w d a v,
+  dweight w (dict_set d a v) == dweight w d + w a * (v - dget0 d a).
+Proof.
+  intros w d a v. induction d as [|[c x] r IH]; simpl.
+  - rewrite dweight_cons. unfold dweight, dget0. simpl. ring.
+  - unfold dget0. simpl. destruct (atom_eqb a c) eqn:E.
+    + apply atom_eqb_eq in E. subst c. rewrite !dweight_cons. ring.
+    + rewrite !dweight_cons, IH. unfold dget0. ring.
+Qed.
+
+Lemma dget_none_notin : forall d a, ~ In a (keys d) -> dget d a = None.
+Proof.
+  induction d as [|[c x] r IH]; intros a H; simpl; [reflexivity|].
+  destruct (atom_eqb a c) eqn:E.
+  - apply atom_eqb_eq in E. subst c. exfalso. apply H. left. reflexivity.
+  - apply IH. intro Hin. apply H. right. exact Hin.
+Qed.
+
+Lemma dweight_dict_del : forall w d a, NoDup (keys d) ->
+  dweight w (dict_del d a) == dweight w d - w a * dget0 d a.
+Proof.
+  intros w d a. unfold dict_del. induction d as [|[c x] r IH]; intro H; simpl.
+  - unfold dweight, dget0. simpl. ring.
+  - inversion H as [|? ? Hn Hr]; subst. unfold dget0. simpl. destruct (atom_eqb a c) eqn:E; simpl.
+    + apply atom_eqb_eq in E. subst c. rewrite dweight_cons, (IH Hr). unfold dget0.
+      rewrite (dget_none_notin r a Hn). ring.
+    + rewrite !dweight_cons, (IH Hr). unfold dget0. ring.
+Qed.
+
+Lemma dweight_perm : forall w l m, Permutation l m -> dweight w l == dweight w m.
+Proof.
+  intros w l m H. induction H as [|[a x] l m H IH|[a x] [b y] l|l m n H1 IH1 H2 IH2].
+  - reflexivity.
+  - rewrite !dweight_cons, IH. reflexivity.
+  - rewrite !dweight_cons. ring.
+  - rewrite IH1. exact IH2.
+Qed.
+
+Lemma fweight_map_item : forall w l, fweight w (FGroup (map hill_item l)) == dweight w l.
+Proof.
+  intros w l. induction l as [|[a x] r IH]; simpl map.
+  - reflexivity.
+  - unfold hill_item at 1. cbn [fst snd]. rewrite fweight_group_cons, IH, dweight_cons.
+    simpl fweight at 1. rewrite Qred_correct. ring.
+Qed.
+
+(* any weight summed over the Hill structure of a dict is the sum over the dict *)
+Lemma fweight_hill : forall w E d, fweight w (FGroup (hill_struct E d)) == dweight w d.
+Proof.
+  intros w E d. rewrite hill_struct_eq, fweight_map_item. apply dweight_perm. apply hsort_perm.
+Qed.
+
+(* ================================================================ 6. formula(atoms, density=...) *)
+Lemma formula_of_dict_struct : forall E d x, f_struct (formula_of_dict E d x) = hill_struct E d.
+Proof. reflexivity. Qed.
+
+Lemma formula_of_dict_cnt : forall E d x b, NoDup (keys d) ->
+  cnt_s b (f_struct (formula_of_dict E d x)) == dget0 d b.
+Proof.
+  intros E d x b H. rewrite formula_of_dict_struct. unfold cnt_s. rewrite hill_atoms.
+  symmetry. apply dget0_dsum. exact H.
+Qed.
+
+Lemma formula_of_dict_weight : forall w E d x,
+  dweight w (f_atoms (formula_of_dict E d x)) == dweight w d.
+Proof.
+  intros w E d x. unfold f_atoms, count_atoms. rewrite dweight_count_frag, formula_of_dict_struct.
+  apply fweight_hill.
+Qed.
+
+Lemma formula_of_dict_mass : forall E d x, f_mass E (formula_of_dict E d x) == dweight (e_mass E) d.
+Proof. intros. unfold f_mass. apply formula_of_dict_weight. Qed.
+
+Lemma formula_of_dict_density_some : forall E d x, f_density (formula_of_dict E d (Some x)) = Some x.
+Proof. reflexivity. Qed.
+
+Lemma formula_of_dict_density_none : forall E d,
+  f_density (formula_of_dict E d None) =
+  match f_atoms (formula_of_dict E d None) with [(a, _)] => e_density E a | _ => None end.
+Proof. reflexivity. Qed.
+
+Lemma nodup_f_atoms : forall f, NoDup (keys (f_atoms f)).
+Proof. intro f. unfold f_atoms, count_atoms. apply nodup_count_frag. Qed.
+
+Lemma f_atoms_cnt : forall f b, dget0 (f_atoms f) b == cnt_s b (f_struct f).
+Proof. intros. apply count_atoms_spec. Qed.
+
+(* ================================================================ 7. the substituted dict *)
+Lemma nodup_substituted : forall d src tgt ns p, NoDup (keys d) -> NoDup (keys (substituted d src tgt ns p)).
+Proof.
+  intros d src tgt ns p H. unfold substituted. destruct (Qeq_bool p 1).
+  - apply nodup_dict_del, nodup_dict_set, H.
+  - apply nodup_dict_set, nodup_dict_set, H.
+Qed.
+
+Lemma substituted_get : forall d src tgt ns p b, src <> tgt -> dget d src = Some ns ->
+  dget0 (substituted d src tgt ns p) b ==
+  if atom_eqb b src then ns * (1 - p)
+  else if atom_eqb b tgt then dget0 d tgt + ns * p
+  else dget0 d b.
+Proof.
+  intros d src tgt ns p b Hne Hs. unfold substituted.
+  assert (Hst : atom_eqb src tgt = false) by (apply atom_eqb_neq; exact Hne).
+  assert (Hns : dget0 d src = ns) by (unfold dget0; rewrite Hs; reflexivity).
+  destruct (Qeq_bool p 1) eqn:Ep.
+  - apply Qeq_bool_iff in Ep. rewrite dget0_dict_del, dget0_dict_set.
+    destruct (atom_eqb b src) eqn:Eb.
+    + rewrite Ep. ring.
+    + reflexivity.
+  - rewrite !dget0_dict_set. rewrite Hst. rewrite Hns.
+    destruct (atom_eqb b src) eqn:Eb; reflexivity.
+Qed.
+
+Lemma substituted_weight : forall w d src tgt ns p, NoDup (keys d) -> src <> tgt -> dget d src = Some ns ->
+  dweight w (substituted d src tgt ns p) == dweight w d - ns * p * (w src - w tgt).
+Proof.
+  intros w d src tgt ns p Hnd Hne Hs. unfold substituted.
+  assert (Hst : atom_eqb src tgt = false) by (apply atom_eqb_neq; exact Hne).
+  assert (Hns : dget0 d src = ns) by (unfold dget0; rewrite Hs; reflexivity).
+  destruct (Qeq_bool p 1) eqn:Ep.
+  - apply Qeq_bool_iff in Ep. rewrite dweight_dict_del by (apply nodup_dict_set; exact Hnd).
+    rewrite dweight_dict_set, dget0_dict_set, Hst, Hns. rewrite Ep. ring.
+  - rewrite !dweight_dict_set, !dget0_dict_set, Hst, Hns. ring.
+Qed.
+
+(* the atoms dictionary of formula(atoms) has one entry per entry of atoms *)
+Lemma hill_count_length : forall E d, NoDup (keys d) ->
+  length (count_atoms (hill_struct E d)) = length d.
+Proof.
+  intros E d H. rewrite hill_struct_flat. rewrite count_atoms_flat.
+  - rewrite !map_length. apply Permutation_length. apply hsort_perm.
+  - rewrite map_map. simpl.
+    apply (Permutation_NoDup (Permutation_sym (Permutation_map fst (hsort_perm E d)))). exact H.
+Qed.
+
+(* ================================================================ 8. Formula.replace *)
+Section Replace.
+  Variable E : aenv.
+  Variable f : fobj.
+  Variables src tgt : atom.
+  Variable p : Q.
+  Let f' := f_replace E f src tgt p.
+  Let n_src := cnt_s src (f_struct f).
+  Let n_tgt := cnt_s tgt (f_struct f).
+
+  Lemma dget_src_cnt : forall ns, dget (f_atoms f) src = Some ns -> ns == n_src.
+  Proof.
+    intros ns H. unfold n_src. rewrite <- f_atoms_cnt. unfold dget0. rewrite H. reflexivity.
+  Qed.
+
+  Lemma dget_src_none_cnt : dget (f_atoms f) src = None -> n_src == 0.
+  Proof.
+    intro H. unfold n_src. rewrite <- f_atoms_cnt. unfold dget0. rewrite H. reflexivity.
+  Qed.
+
+  (* every count of the result, source and target different *)
+  Lemma replace_cnt_all : src <> tgt -> forall b,
+    cnt_s b (f_struct f') ==
+    if atom_eqb b src then n_src * (1 - p)
+    else if atom_eqb b tgt then n_tgt + n_src * p
+    else cnt_s b (f_struct f).
+  Proof.
+    intros Hne b. unfold f', f_replace. destruct (dget (f_atoms f) src) as [ns|] eqn:Hs.
+    - rewrite (atom_eqb_neq _ _ Hne).
+      rewrite formula_of_dict_cnt by (apply nodup_substituted, nodup_f_atoms).
+      rewrite (substituted_get _ _ _ _ _ b Hne Hs). pose proof (dget_src_cnt ns Hs) as Hn.
+      destruct (atom_eqb b src); [rewrite Hn; reflexivity|]. destruct (atom_eqb b tgt).
+      + unfold n_tgt. rewrite f_atoms_cnt, Hn. reflexivity.
+      + apply f_atoms_cnt.
+    - rewrite formula_of_dict_cnt by apply nodup_f_atoms. rewrite f_atoms_cnt.
+      pose proof (dget_src_none_cnt Hs) as Hz.
+      destruct (atom_eqb b src) eqn:Eb.
+      + apply atom_eqb_eq in Eb. subst b. fold n_src. rewrite Hz. ring.
+      + destruct (atom_eqb b tgt) eqn:Et.
+        * apply atom_eqb_eq in Et. subst b. fold n_tgt. rewrite Hz. ring.
+        * reflexivity.
+  Qed.
+
+  (* all other counts are kept *)
+  Theorem replace_other_counts : forall b, b <> src -> b <> tgt ->
+    cnt_s b (f_struct f') == cnt_s b (f_struct f).
+  Proof.
+    intros b Hs Ht. destruct (atom_eqb src tgt) eqn:Est.
+    - (* self-substitution: the identity *)
+      apply atom_eqb_eq in Est. unfold f', f_replace. rewrite <- Est, atom_eqb_refl.
+      destruct (dget (f_atoms f) src); rewrite formula_of_dict_cnt by apply nodup_f_atoms; apply f_atoms_cnt.
+    - assert (Hne : src <> tgt) by (intro H; subst tgt; rewrite atom_eqb_refl in Est; discriminate).
+      rewrite (replace_cnt_all Hne b). rewrite (atom_eqb_neq _ _ Hs), (atom_eqb_neq _ _ Ht). reflexivity.
+  Qed.
+
+  (* the target gains n_src * p, the source keeps n_src * (1 - p) *)
+  Theorem replace_counts : src <> tgt ->
+    cnt_s tgt (f_struct f') == n_tgt + n_src * p /\ cnt_s src (f_struct f') == n_src * (1 - p).
+  Proof.
+    intro Hne. split.
+    - rewrite (replace_cnt_all Hne tgt). rewrite atom_eqb_refl.
+      rewrite (atom_eqb_neq tgt src) by (intro H; apply Hne; symmetry; exact H). reflexivity.
+    - rewrite (replace_cnt_all Hne src). rewrite atom_eqb_refl. reflexivity.
+  Qed.
+
+  (* any additive quantity (mass, natural mass, charge, ...) changes by the substituted amount *)
+  Lemma replace_weight : forall w, src <> tgt ->
+    dweight w (f_atoms f') == dweight w (f_atoms f) - n_src * p * (w src - w tgt).
+  Proof.
+    intros w Hne. unfold f', f_replace. destruct (dget (f_atoms f) src) as [ns|] eqn:Hs.
+    - rewrite (atom_eqb_neq _ _ Hne). rewrite formula_of_dict_weight.
+      rewrite (substituted_weight w _ _ _ _ p (nodup_f_atoms f) Hne Hs). rewrite (dget_src_cnt ns Hs). reflexivity.
+    - rewrite formula_of_dict_weight. rewrite (dget_src_none_cnt Hs). ring.
+  Qed.
+
+  Theorem replace_mass : src <> tgt ->
+    f_mass E f' == f_mass E f - n_src * p * (e_mass E src - e_mass E tgt).
+  Proof. intro Hne. unfold f_mass. apply replace_weight. exact Hne. Qed.
+
+  Theorem replace_charge : src <> tgt ->
+    f_charge f' == f_charge f - n_src * p * (inject_Z (aq src) - inject_Z (aq tgt)).
+  Proof. intro Hne. unfold f_charge. apply (replace_weight (fun a => inject_Z (aq a))). exact Hne. Qed.
+
+  (* the cell volume mass/density is kept, so the density scales with the mass *)
+  Theorem replace_keeps_cell_volume : forall rho, src <> tgt -> f_density f = Some rho ->
+    ~ rho == 0 -> ~ f_mass E f == 0 -> ~ f_mass E f' == 0 ->
+    exists rho', f_density f' = Some rho' /\ f_mass E f' / rho' == f_mass E f / rho
+                 /\ rho' == rho * f_mass E f' / f_mass E f.
+  Proof.
+    intros rho Hne Hd Hr Hm Hm'. pose proof (replace_mass Hne) as HM. unfold f', f_replace in *.
+    destruct (dget (f_atoms f) src) as [ns|] eqn:Hs.
+    - rewrite (atom_eqb_neq _ _ Hne) in *. rewrite Hd in *. eexists. split; [reflexivity|].
+      set (M' := f_mass E (formula_of_dict E (substituted (f_atoms f) src tgt ns p)
+                   (Some (rho * (f_mass E f - ns * p * (e_mass E src - e_mass E tgt)) / f_mass E f)))) in *.
+      assert (Hred : f_mass E f - ns * p * (e_mass E src - e_mass E tgt) == M').
+      { rewrite HM. rewrite (dget_src_cnt ns Hs). reflexivity. }
+      rewrite Hred. split; [|reflexivity]. field. repeat split; assumption.
+    - rewrite Hd in *. eexists. split; [reflexivity|].
+      set (M' := f_mass E (formula_of_dict E (f_atoms f) (Some rho))) in *.
+      assert (HMM : M' == f_mass E f).
+      { rewrite HM. rewrite (dget_src_none_cnt Hs). ring. }
+      rewrite HMM. split; [reflexivity|]. field. exact Hm.
+  Qed.
+
+  (* repaired model: an unknown density stays unknown when more than one atom remains; when a
+     single atom remains the result is a single-atom formula and takes that atom's density,
+     exactly as formula() does *)
+  Theorem replace_unknown_stays_unknown : f_density f = None ->
+    length (f_atoms f') <> 1%nat -> f_density f' = None.
+  Proof.
+    intros Hd Hlen. unfold f', f_replace in *. rewrite Hd in *.
+    destruct (dget (f_atoms f) src); [destruct (atom_eqb src tgt)|];
+      rewrite formula_of_dict_density_none in *;
+      match goal with |- context [f_atoms ?x] => destruct (f_atoms x) as [|[a0 c0] [|q0 r0]] end;
+      try reflexivity; exfalso; apply Hlen; reflexivity.
+  Qed.
+
+  Theorem replace_unknown_single_atom : forall a c, f_density f = None ->
+    f_atoms f' = [(a, c)] -> f_density f' = e_density E a.
+  Proof.
+    intros a c Hd Hat. unfold f', f_replace in *. rewrite Hd in *.
+    destruct (dget (f_atoms f) src); [destruct (atom_eqb src tgt)|];
+      rewrite formula_of_dict_density_none; rewrite Hat; reflexivity.
+  Qed.
+
+  (* a source that is not in the formula: same atoms, same density *)
+  Theorem replace_absent_source_is_identity : dget (f_atoms f) src = None ->
+    f_struct f' = hill_struct E (f_atoms f) /\
+    (forall b, cnt_s b (f_struct f') == cnt_s b (f_struct f)) /\
+    f_mass E f' == f_mass E f /\
+    (forall rho, f_density f = Some rho -> f_density f' = Some rho) /\
+    (f_density f = None -> length (f_atoms f) <> 1%nat -> f_density f' = None).
+  Proof.
+    intro Hs. unfold f', f_replace. rewrite Hs. split; [reflexivity|]. split; [|split; [|split]].
+    - intro b. rewrite formula_of_dict_cnt by apply nodup_f_atoms. apply f_atoms_cnt.
+    - apply formula_of_dict_mass.
+    - intros rho Hd. rewrite Hd. reflexivity.
+    - intros Hd Hlen. rewrite Hd. apply several_atoms_unknown.
+      rewrite hill_count_length by apply nodup_f_atoms. exact Hlen.
+  Qed.
+End Replace.
+
+(* ================================================================ 9. substituting an atom for itself *)
+(* repaired model: the identity (atoms, mass, known density) *)
+Theorem replace_same_atom_is_identity : forall E f a p,
+  (forall b, cnt_s b (f_struct (f_replace E f a a p)) == cnt_s b (f_struct f)) /\
+  f_mass E (f_replace E f a a p) == f_mass E f /\
+  (forall rho, f_density f = Some rho -> f_density (f_replace E f a a p) = Some rho).
+Proof.
+  intros E f a p. unfold f_replace. rewrite atom_eqb_refl.
+  assert (H : (if dget (f_atoms f) a then formula_of_dict E (f_atoms f) (f_density f)
+               else formula_of_dict E (f_atoms f) (f_density f)) = formula_of_dict E (f_atoms f) (f_density f))
+    by (destruct (dget (f_atoms f) a); reflexivity).
+  replace (match dget (f_atoms f) a with
+           | Some _ => formula_of_dict E (f_atoms f) (f_density f)
+           | None => formula_of_dict E (f_atoms f) (f_density f) end)
+    with (formula_of_dict E (f_atoms f) (f_density f)) by (destruct (dget (f_atoms f) a); reflexivity).
+  split; [|split].
+  - intro b. rewrite formula_of_dict_cnt by apply nodup_f_atoms. apply f_atoms_cnt.
+  - apply formula_of_dict_mass.
+  - intros rho Hd. rewrite Hd. reflexivity.
+Qed.
+
+(* ================================================================ 10. the code as it stands *)
+(* where the code returns a value for different atoms it is the repaired model's value *)
+Theorem replace_code_agrees : forall E f src tgt p g, src <> tgt ->
+  f_replace_code E f src tgt p = Some g -> g = f_replace E f src tgt p.
+Proof.
+  intros E f src tgt p g Hne H. unfold f_replace_code, f_replace in *.
+  rewrite (atom_eqb_neq _ _ Hne). destruct (dget (f_atoms f) src).
+  - destruct (f_density f); [|discriminate]. inversion H. reflexivity.
+  - inversion H. reflexivity.
+Qed.
+
+(* ... but it raises when the density is unknown and the source is present: on the code the
+   statement "an unknown density stays unknown" fails *)
+Theorem replace_code_unknown_raises : forall E f src tgt p ns,
+  f_density f = None -> dget (f_atoms f) src = Some ns -> f_replace_code E f src tgt p = None.
+Proof. intros E f src tgt p ns Hd Hs. unfold f_replace_code. rewrite Hs, Hd. reflexivity. Qed.
+
+Definition E_unit : aenv := mkEnv (fun _ => 1) (fun _ => 1) (fun _ => None) (sym_of Gen.ElementBase.element_base).
+Definition water (rho : option Q) : fobj :=
+  mkF [(2, FAtom (mkAtom 1 0 0)); (1, FAtom (mkAtom 8 0 0))] KTuple rho None.
+
+(* witness: H2O with no density, H -> D *)
+Theorem replace_unknown_stays_unknown_code_refuted :
+  exists E f src tgt p, f_density f = None /\ f_replace_code E f src tgt p = None /\
+    f_density (f_replace E f src tgt p) = None.
+Proof.
+  exists E_unit, (water None), (mkAtom 1 0 0), (mkAtom 1 2 0), 1. repeat split.
+Qed.
+
+(* witness: H2O @ 1 with H replaced by H loses its hydrogen on the code *)
+Theorem replace_same_atom_code_refuted :
+  exists E f a p g, f_replace_code E f a a p = Some g /\
+    ~ cnt_s a (f_struct g) == cnt_s a (f_struct f).
+Proof.
+  exists E_unit, (water (Some 1)), (mkAtom 1 0 0), 1. eexists. split; [reflexivity|].
+  vm_compute. discriminate.
+Qed.
+
+(* ================================================================ 11. positivity: the result has a mass *)
+Lemma dweight_nonneg : forall w d, (forall a c, In (a, c) d -> 0 <= w a * c) -> 0 <= dweight w d.
+Proof.
+  intros w d. induction d as [|[a c] r IH]; intro H.
+  - unfold dweight. simpl. apply Qle_refl.
+  - rewrite dweight_cons. rewrite <- (Qplus_0_l 0). apply Qplus_le_compat.
+    + apply (H a c). left. reflexivity.
+    + apply IH. intros a' c' Hin. apply (H a' c'). right. exact Hin.
+Qed.
+
+Lemma dget_some_in : forall d a w, dget d a = Some w -> In (a, w) d.
+Proof.
+  induction d as [|[c x] r IH]; intros a w H; simpl in H; [discriminate|].
+  destruct (atom_eqb a c) eqn:E.
+  - apply atom_eqb_eq in E. subst c. inversion H. left. reflexivity.
+  - right. apply IH. exact H.
+Qed.
+
+Theorem replace_mass_positive : forall E f src tgt p, src <> tgt -> 0 <= p -> p <= 1 ->
+  (forall a, 0 < e_mass E a) -> (forall a c, In (a, c) (f_atoms f) -> 0 <= c) ->
+  0 < f_mass E f -> 0 < f_mass E (f_replace E f src tgt p).
+Proof.
+  intros E f src tgt p Hne Hp0 Hp1 Hm Hc HM. rewrite (replace_mass E f src tgt p Hne).
+  pose proof (dweight_dict_del (e_mass E) (f_atoms f) src (nodup_f_atoms f)) as Hdel.
+  assert (Hrest : 0 <= dweight (e_mass E) (dict_del (f_atoms f) src)).
+  { apply dweight_nonneg. intros a c Hin. unfold dict_del in Hin. apply filter_In in Hin.
+    destruct Hin as [Hin _]. apply Qmult_le_0_compat; [apply Qlt_le_weak, Hm|exact (Hc a c Hin)]. }
+  assert (Hns : dget0 (f_atoms f) src == cnt_s src (f_struct f)) by apply f_atoms_cnt.
+  assert (Hn0 : 0 <= dget0 (f_atoms f) src).
+  { unfold dget0. destruct (dget (f_atoms f) src) as [w|] eqn:Hs; [|apply Qle_refl].
+    apply (Hc src w). apply dget_some_in. exact Hs. }
+  unfold f_mass in *. rewrite <- Hns. 
+  set (M := dweight (e_mass E) (f_atoms f)) in *.
+  set (R := dweight (e_mass E) (dict_del (f_atoms f) src)) in *.
+  set (n := dget0 (f_atoms f) src) in *.
+  pose proof (Hm src) as Hs. pose proof (Hm tgt) as Ht.
+  set (ms := e_mass E src) in *. set (mt := e_mass E tgt) in *.
+  (* M - n p (ms - mt) = R + n ((1-p) ms + p mt) *)
+  assert (Heq : M - n * p * (ms - mt) == R + n * ((1 - p) * ms + p * mt)) by (rewrite Hdel; ring).
+  rewrite Heq.
+  assert (Hk : 0 < (1 - p) * ms + p * mt).
+  { destruct (Qlt_le_dec p 1) as [Hlt|Hge].
+    - apply Qlt_le_trans with ((1 - p) * ms + 0).
+      + rewrite Qplus_0_r. apply Qmult_lt_0_compat; [|exact Hs].
+        unfold Qminus. rewrite <- (Qplus_opp_r p). apply Qplus_lt_le_compat; [exact Hlt|apply Qle_refl].
+      + apply Qplus_le_compat; [apply Qle_refl|].
+        apply Qmult_le_0_compat; [exact Hp0|apply Qlt_le_weak, Ht].
+    - assert (Hp : p == 1) by (apply Qle_antisym; assumption).
+      rewrite Hp. ring_simplify. exact Ht. }
+  destruct (Qlt_le_dec 0 n) as [Hnp|Hnz].
+  - apply Qlt_le_trans with (0 + n * ((1 - p) * ms + p * mt)).
+    + rewrite Qplus_0_l. apply Qmult_lt_0_compat; assumption.
+    + apply Qplus_le_compat; [exact Hrest|apply Qle_refl].
+  - assert (Hn : n == 0) by (apply Qle_antisym; assumption).
+    rewrite Hn. ring_simplify. 
+    assert (HMR : M == R) by (rewrite Hdel, Hn; ring). rewrite <- HMR. exact HM.
+Qed.
+
+(* the statement of the property on its domain: positive masses, non-negative counts,
+   0 <= portion <= 1, a known positive density *)
+Theorem replace_keeps_cell_volume_domain : forall E f src tgt p rho, src <> tgt -> 0 <= p -> p <= 1 ->
+  (forall a, 0 < e_mass E a) -> (forall a c, In (a, c) (f_atoms f) -> 0 <= c) -> 0 < f_mass E f ->
+  f_density f = Some rho -> 0 < rho ->
+  exists rho', f_density (f_replace E f src tgt p) = Some rho' /\ 0 < rho' /\
+    f_mass E (f_replace E f src tgt p) / rho' == f_mass E f / rho.
+Proof.
+  intros E f src tgt p rho Hne Hp0 Hp1 Hm Hc HM Hd Hr.
+  pose proof (replace_mass_positive E f src tgt p Hne Hp0 Hp1 Hm Hc HM) as HM'.
+  destruct (replace_keeps_cell_volume E f src tgt p rho Hne Hd) as [rho' [H1 [H2 H3]]].
+  - intro H. rewrite H in Hr. exact (Qlt_irrefl 0 Hr).
+  - intro H. rewrite H in HM. exact (Qlt_irrefl 0 HM).
+  - intro H. rewrite H in HM'. exact (Qlt_irrefl 0 HM').
+  - exists rho'. split; [exact H1|]. split; [|exact H2]. rewrite H3.
+    unfold Qdiv. apply Qmult_lt_0_compat; [apply Qmult_lt_0_compat; assumption|].
+    apply Qinv_lt_0_compat. exact HM.
 Qed.
